@@ -24,7 +24,7 @@ debug-build type query on the new node (`selfCheck`).
 `dbg` is `cfg(debug_assertions)`: in debug builds `parse_expr_internal` re-derives the type of **every** node it
 builds with `Expression::get_type` and asserts it equals the computed one (`selfCheck`); in release builds only
 `parse_expr` (one per statement / initialiser / return) does.  The harness is a debug build, so the
-correspondence runs `dbg = true`; the theorems say which facts need the check and which do not.
+correspondence runs `dbg = true`; `Thm.C03.elab_debug_check_redundant` proves the two modes coincide on the current code.
 -/
 namespace RsslVerif.Model.Elab
 open RsslVerif.Gen.RankTable RsslVerif.Gen.TypingTables RsslVerif.Model.Conv RsslVerif.Model.Overload
@@ -71,6 +71,8 @@ def applyConv (c : Conversion) (e : IExpr) : Except Err IExpr :=
   match targetType c with
   | .error s => .error (.panic s)
   | .ok t =>
+    -- the literal re-tagging shortcut is only taken for unmodified targets (`target_is_unmodified`, fix 660cfa4)
+    if retagRequiresUnmodified && decide (t.ty.mod ≠ {}) then .ok (.cast t.ty e) else
     match e, t.ty.layer with
     | .lit .intLiteral, .scalar k =>
       match retagInt k with
@@ -116,16 +118,24 @@ def minusFolds : Scalar → Bool
 def enforceIncrement (τ : ETy) : Except Err Unit :=
   if τ.vt = .rvalue then .error (.reject "UnaryOperationWrongTypes")
   else if τ.ty.mod.isConst then .error (.reject "UnaryOperationWrongTypes")
-  else if τ.ty.layer.extractScalar = some .bool then .error (.reject "UnaryOperationWrongTypes")
-  else .ok ()
+  else
+    -- `is_incrementable` (fix 606facd): numeric non-bool types and enums
+    match τ.ty.layer with
+    | .other _ => .error (.reject "UnaryOperationWrongTypes")
+    | .enum _ => .ok ()
+    | l => if l.extractScalar = some .bool then .error (.reject "UnaryOperationWrongTypes") else .ok ()
 
-/-- the cast of the operand of `+ - ! ~` to the operator's input type: `find(..).unwrap()` then `apply` -/
-def castOperand (e : IExpr) (τ inp : ETy) : Except Err IExpr :=
+/-- the cast of the operand of `! ~` to the operator's input type: `find(..)` then `apply`.  `~` still unwraps the
+    result (`onFail = panic`; it only ever asks for `bool → int`), `!` reports `UnaryOperationWrongTypes` when the
+    operand does not convert to `bool` (fix bf0e893) -/
+def castOperand (onFail : Err) (e : IExpr) (τ inp : ETy) : Except Err IExpr :=
   if τ = inp then .ok e else
   match find τ inp with
   | .error m => .error (.panic m)
-  | .ok none => .error (.panic "expressions.rs: called `Result::unwrap()` on an `Err` value")
+  | .ok none => .error onFail
   | .ok (some c) => applyConv c e
+
+def unwrapPanic : Err := .panic "expressions.rs: called `Result::unwrap()` on an `Err` value"
 
 /-- `parse_expr_unaryop` after the operand has been elaborated -/
 def elabUn (o : UnOp) (e : IExpr) (τ : ETy) : Res :=
@@ -142,11 +152,11 @@ def elabUn (o : UnOp) (e : IExpr) (τ : ETy) : Res :=
   | .postfixIncrement =>
     match enforceIncrement τ with
     | .error m => .error m
-    | .ok _ => .ok ((.op .postfixIncrement (.cons e .nil)), τ.ty.r)
+    | .ok _ => .ok ((.op .postfixIncrement (.cons e .nil)), unmodR)
   | .postfixDecrement =>
     match enforceIncrement τ with
     | .error m => .error m
-    | .ok _ => .ok ((.op .postfixDecrement (.cons e .nil)), τ.ty.r)
+    | .ok _ => .ok ((.op .postfixDecrement (.cons e .nil)), unmodR)
   | .plus =>
     match τ.ty.layer with
     | .enum _ => .error (.unsupported "enum operand")
@@ -168,7 +178,7 @@ def elabUn (o : UnOp) (e : IExpr) (τ : ETy) : Res :=
     | .other _ => .error (.reject "UnaryOperationWrongTypes")
     | l =>
       let (out, inp) := if l.extractScalar = some .bool then (unmodR, τ) else (boolR, boolR)
-      match castOperand e τ inp with
+      match castOperand (.reject "UnaryOperationWrongTypes") e τ inp with
       | .error m => .error m
       | .ok e' => .ok ((.op .logicalNot (.cons e' .nil)), out)
   | .bitwiseNot =>
@@ -177,7 +187,7 @@ def elabUn (o : UnOp) (e : IExpr) (τ : ETy) : Res :=
     | .scalar .intLiteral | .scalar .int32 | .scalar .uInt32 =>
       .ok ((.op .bitwiseNot (.cons e .nil)), unmodR)
     | .scalar .bool =>
-      match castOperand e τ intR with
+      match castOperand unwrapPanic e τ intR with
       | .error m => .error m
       | .ok e' => .ok ((.op .bitwiseNot (.cons e' .nil)), intR)
     | _ => .error (.reject "UnaryOperationWrongTypes")
